@@ -91,12 +91,12 @@ pub fn gen(tier: Tier, rng: &mut Rng64, out: &mut Out) {
             let t = if thorough { i } else { rng.below(65536) };
             let b = fmt_bdd(&bdd_of_tt(4, &tt_from_index(4, t)));
             let names = rng.pick(&sets).clone();
-            if thorough { run("C20.dot", &[b, enc_names(&names), s(if rng.bool() { "1" } else { "0" })], out); } else { both(&b, &names, out); }
+            both(&b, &names, out);
         }
     }
     // --- random larger diagrams, also valid non-canonical ones (duplicated nodes, unreachable nodes, redundant tests,
     //     non-post-order numbering): the export walks the node array, not the graph
-    for _ in 0..(if thorough { 20000 } else { 1200 }) {
+    for _ in 0..(if thorough { 60000 } else { 1200 }) {
         let n = 4 + rng.below(5) as usize;
         let mut b = random_bdd(rng, n);
         if rng.chance(1, 3) { b = noncanon_variant(rng, &b); }
